@@ -1814,6 +1814,12 @@ class BADS:
                 is_search_improved = sto_success == 1
                 is_search_success = is_search_improved
 
+        # An empty search set cannot improve on the incumbent (with a noisy
+        # target the improvement quantile / StoBADS test alone could say so)
+        if u_search.size == 0:
+            is_search_improved = False
+            is_search_success = False
+
         # A search improvement implies an update of the incumbent
         if is_search_improved:
             if self.options["acq_hedge"]:
